@@ -286,6 +286,13 @@ def apply_tok(obj, t: int, nested_only: bool = False):
             obj.Type.ConceptDescription = [pm_types.LocalizedText(f'concept{t}')]
         else:
             obj.Type.ConceptDescription[0].text = f'concept{t}'       # nested list member
+        if name in ('AlertConditionDescriptorContainer', 'LimitAlertConditionDescriptorContainer'):
+            # an INDEXED list attribute (descriptions.source), changed in place like an application may do it
+            src = ('numeric.ch0.vmd0', 'string.ch0.vmd0', 'rtsa.ch0.vmd0')[t % 3]
+            del obj.Source[:]
+            obj.Source.append(src)
+        elif name == 'AlertSignalDescriptorContainer':
+            obj.ConditionSignaled = ('ac0.vmd0.mds0', 'ac1.vmd0.mds0')[t % 2]   # indexed (descriptions.condition_signaled)
     else:
         raise MachineryError(f'apply_tok: no concretisation for {name}')
 
